@@ -926,6 +926,8 @@ fn do_xargs(args: &[&str]) -> Result<CommandResult, XargsError> {
     let matches = clap::Command::new("xargs")
         .version(crate_version!())
         .about("Run commands using arguments derived from standard input")
+        // An option given again replaces its earlier value (the last one wins).
+        .args_override_self(true)
         .arg(
             Arg::new(options::COMMAND)
                 .help("The command to run")
